@@ -151,6 +151,31 @@ func r141(c *Ctx, rule string) {
 			}
 		}
 	}
+	if !okErrClose && buf != nil && copyCall != nil {
+		// path by path: every way of returning with the copy's error non-nil passes a Close of that buffer
+		ps, complete := enumPathsX(nbr, func(*ssa.Return) bool { return true }, 512)
+		if complete {
+			n, all := 0, true
+			for _, p := range ps {
+				if _, nn := nilKnowledgeOf(p.conds, sameAs(errResultOf(copyCall))); !nn {
+					continue
+				}
+				n++
+				closed := false
+				for _, b := range p.blocks {
+					for _, in := range b.Instrs {
+						if ci, ok := in.(ssa.CallInstruction); ok && isCallTo(ci.Common(), bc) && resolve(stripConv(ci.Common().Args[0])) == resolve(buf) {
+							closed = true
+						}
+					}
+				}
+				if !closed {
+					all = false
+				}
+			}
+			okErrClose = n >= 1 && all
+		}
+	}
 	c.ob(rule, "NewBufferedReadCloser/copy-error-closes-buffer", nbr.Pos(), okErrClose, true, "if buffering the request fails part way, the partially filled buffer (and its spill) must be closed")
 	rbm := c.method("ResponseBufferMiddleware", "ServeHTTP")
 	nbw := c.fn("NewBufferedWriteCloser")
